@@ -330,6 +330,8 @@ class Lexer():
         self._in_string = None
         # * the starting delimiter, either " or '
         self._in_string_delim = None
+        # * whether a "\z" escape is skipping the whitespace that follows it
+        self._in_string_skip_space = False
 
         # If inside a multiline comment (else None):
         # * the lines of comment, as an array of str (possibly empty)
@@ -374,6 +376,14 @@ class Lexer():
             while i < len(s):
                 c = s[i:i+1]
 
+                if self._in_string_skip_space:
+                    # "\z" skips the whitespace that follows it, line breaks
+                    # included, and adds nothing to the string.
+                    if c in (b' ', b'\t', b'\n', b'\r', b'\v', b'\f'):
+                        i += 1
+                        continue
+                    self._in_string_skip_space = False
+
                 if c == self._in_string_delim:
                     # End string literal.
                     self._tokens.append(
@@ -402,6 +412,10 @@ class Lexer():
                         # Escaped CRLF line break.
                         c = b'\n'
                         i += 2
+                    elif s[i+1:i+2] == b'z':
+                        self._in_string_skip_space = True
+                        i += 2
+                        continue
                     else:
                         next_c = s[i+1:i+2]
                         if next_c in _STRING_ESCAPES:
@@ -472,6 +486,7 @@ class Lexer():
             self._in_string_lineno = self._cur_lineno
             self._in_string_charno = self._cur_charno
             self._in_string = []
+            self._in_string_skip_space = False
             i = 1
 
         else:
